@@ -139,7 +139,7 @@ impl<'a, 'tcx> Cx<'a, 'tcx> {
                         return None;
                     }
                 }
-                let alloc = tcx.global_alloc(alloc_id).unwrap_memory();
+                let alloc = match tcx.global_alloc(alloc_id) { rustc_middle::mir::interpret::GlobalAlloc::Memory(m) => m, _ => return None };
                 let a = alloc.inner();
                 let n = meta as usize;
                 Some(a.inspect_with_uninit_and_ptr_outside_interpreter(0..n).to_vec())
@@ -285,7 +285,7 @@ impl<'a, 'tcx> Cx<'a, 'tcx> {
         let n = layout.size.bytes_usize();
         if let ConstValue::Scalar(mir::interpret::Scalar::Ptr(ptr, _)) = val {
             let (prov, off) = ptr.into_raw_parts();
-            let alloc = tcx.global_alloc(prov.alloc_id()).unwrap_memory();
+            let alloc = match tcx.global_alloc(prov.alloc_id()) { rustc_middle::mir::interpret::GlobalAlloc::Memory(m) => m, _ => return None };
             let a = alloc.inner();
             let o = off.bytes_usize();
             if n > 16 || o + n > a.len() {
@@ -323,7 +323,7 @@ impl<'a, 'tcx> Cx<'a, 'tcx> {
         let bytes: Vec<u8> = match (val, by_ref) {
             (ConstValue::Scalar(mir::interpret::Scalar::Ptr(ptr, _)), true) => {
                 let (prov, off) = ptr.into_raw_parts();
-                let alloc = tcx.global_alloc(prov.alloc_id()).unwrap_memory();
+                let alloc = match tcx.global_alloc(prov.alloc_id()) { rustc_middle::mir::interpret::GlobalAlloc::Memory(m) => m, _ => return None };
                 let a = alloc.inner();
                 if !a.provenance().ptrs().is_empty() {
                     return None;
@@ -332,7 +332,7 @@ impl<'a, 'tcx> Cx<'a, 'tcx> {
                 a.inspect_with_uninit_and_ptr_outside_interpreter(o..o + size).to_vec()
             }
             (ConstValue::Indirect { alloc_id, offset }, false) => {
-                let alloc = tcx.global_alloc(alloc_id).unwrap_memory();
+                let alloc = match tcx.global_alloc(alloc_id) { rustc_middle::mir::interpret::GlobalAlloc::Memory(m) => m, _ => return None };
                 let a = alloc.inner();
                 if !a.provenance().ptrs().is_empty() {
                     return None;
@@ -731,7 +731,7 @@ impl rustc_driver::Callbacks for Cb {
                     format!("\"int\":\"{}\"", v)
                 }
                 ConstValue::Indirect { alloc_id, offset } => {
-                    let alloc = tcx.global_alloc(alloc_id).unwrap_memory();
+                    let alloc = match tcx.global_alloc(alloc_id) { rustc_middle::mir::interpret::GlobalAlloc::Memory(m) => m, _ => continue };
                     let a = alloc.inner();
                     let n = layout.size.bytes_usize();
                     if n > (1 << 20) {
@@ -781,7 +781,7 @@ impl rustc_driver::Callbacks for Cb {
                     }
                 }
                 ConstValue::Slice { alloc_id, meta } => {
-                    let alloc = tcx.global_alloc(alloc_id).unwrap_memory();
+                    let alloc = match tcx.global_alloc(alloc_id) { rustc_middle::mir::interpret::GlobalAlloc::Memory(m) => m, _ => continue };
                     let a = alloc.inner();
                     let n = meta as usize;
                     if !a.provenance().ptrs().is_empty() || n > a.len() {
